@@ -429,9 +429,9 @@ func (a *NodeActor) runGossipRoundWithTargets(ctx vivid.ActorContext, targets []
 		if !a.gossipRateLimiter.Allow() {
 			break
 		}
-		if !a.shouldSendGossipTo(snap.VersionVector, addr) {
-			continue
-		}
+		// 周期性 Gossip 同时充当心跳：成员的 LastSeen 只在收到其 Gossip 时刷新，
+		// 若视图一致时跳过发送，空闲的健康集群会在故障检测超时后互相移除。
+		// “对方合并后不会变更则跳过”的优化仅用于事件驱动的 broadcastViewOnce。
 		ref, err := ctx.System().CreateRef(addr, "/@cluster")
 		if err != nil {
 			continue
